@@ -1,5 +1,5 @@
 (* C10 - Each request reaches exactly the authenticator method for its command. *)
-From Ctap Require Import Base Schema Wire Typed Procs Inst Tables ProcTables Finite FramingP.
+From Ctap Require Import Base Schema Wire Typed Procs Inst Tables ProcTables Finite FramingP FnShapes Shapes ObShapeDispatch.
 Local Open Scope string_scope.
 Local Open Scope Z_scope.
 
@@ -84,8 +84,14 @@ Definition call_tables_equiv (G : tables) : bool :=
 Theorem c10_generated_tables : forallb (fun f => call_tables_equiv (gen_tables f)) all_feats = true.
 Proof. vm_compute. reflexivity. Qed.
 
+(* tie to the source for the hand-modelled procedural code: the bodies of these functions, as regenerated from
+   /repo now, have the shape (literals, operators, calls, control flow, constants) the model was written against *)
+Theorem c10_modelled_functions_unchanged_dispatch : shapes_hold fn_shapes shapes_dispatch = true.
+Proof. exact generated_shapes_dispatch. Qed.
+
 Eval vm_compute in "ASSUMPTIONS c10_ctap2". Print Assumptions c10_ctap2.
 Eval vm_compute in "ASSUMPTIONS c10_ctap1". Print Assumptions c10_ctap1.
 Eval vm_compute in "ASSUMPTIONS c10_exactly_one_call". Print Assumptions c10_exactly_one_call.
 Eval vm_compute in "ASSUMPTIONS c10_get_info_infallible". Print Assumptions c10_get_info_infallible.
 Eval vm_compute in "ASSUMPTIONS c10_generated_tables". Print Assumptions c10_generated_tables.
+Eval vm_compute in "ASSUMPTIONS c10_modelled_functions_unchanged_dispatch". Print Assumptions c10_modelled_functions_unchanged_dispatch.
